@@ -96,6 +96,17 @@ theorem C10_writer_refines_canon (bits : Nat) (hb : 2 ≤ bits) (cbs : List (Nat
       (∀ cb ∈ cbs, (Spec.kindOf (symsOf cb.2)).toNat ≤ sigS.toNat) :=
   writer_refines_canon bits hb cbs hv
 
+/-- … and the same for string and real signals: the writer keeps exactly `canon` of the callback sequence, values stored
+verbatim (strings: the bytes delivered; reals: the 8 bytes) -/
+theorem C10_writer_strings_reals (cbs : List (Nat × List Nat)) :
+    (∃ (chg : List (Nat × List Nat)), runWriter .string (cbs.map fun c => (c.1, WValue.chars c.2)) =
+        some { maxStates := .two, times := chg.map (·.1), entries := chg.map (·.2) } ∧
+      (chg.map fun x => (x.1, Spec.Value.str x.2)) = Spec.canon (cbs.map fun c => (c.1, Spec.Value.str c.2))) ∧
+    (∃ (chg : List (Nat × List Nat)), runWriter .real (cbs.map fun c => (c.1, WValue.real c.2)) =
+        some { maxStates := .two, times := chg.map (·.1), entries := chg.map (·.2) } ∧
+      (chg.map fun x => (x.1, Spec.Value.real x.2)) = Spec.canon (cbs.map fun c => (c.1, Spec.Value.real c.2))) :=
+  ⟨writer_strings_refine_canon cbs, writer_reals_refine_canon cbs⟩
+
 /-- non-vacuity: `01`, `0x` (widening to four states), `0x` again (dropped), `h1` (widening to nine states) -/
 example : ∃ l, runWriter (.bitvec 2) [(0, .chars [48, 49]), (1, .chars [48, 120]), (2, .chars [48, 120]), (2, .chars [104, 49])] = some l ∧
     l.times = [0, 1, 2] ∧ l.maxStates = .nine := ⟨_, rfl, rfl, rfl⟩
